@@ -319,6 +319,7 @@ def ports_inline(chk: Check, n: int) -> None:
     impls = {
         "strip_backslash": marko.inline.Literal.strip_backslash,          # the specification of the parser's escape removal
         "escape_backslashes": fm._escape_backslashes,
+        "escape_backslashes_inner": lambda s: fm._escape_backslashes(s, delimiter_follows=False),
         "link_destination": fm._link_destination,
         "normalize_title_quotes": fm._normalize_title_quotes,
         "render_code_span": lambda s: renderer_cls.render_code_span(None, SimpleNamespace(children=s)),
